@@ -280,7 +280,7 @@ func (c *FuncCtx) intBinop(op token.Token, x, y Val, t types.Type) (string, erro
 		}
 		return c.wrap(raw, x.T), nil
 	case token.QUO:
-		if _, lit := parseIntLit(b); !lit && !c.inLemma {
+		if _, lit := parseIntLit(b); !lit && !c.inLemma && c.opaqueNLDiv() {
 			// division by a variable is nonlinear: outside lemma proofs it is an opaque function with its range facts
 			// (nldiv.go); exact facts about it come from lemmas proved against the real definition
 			c.nlDivDecls()
@@ -294,7 +294,7 @@ func (c *FuncCtx) intBinop(op token.Token, x, y Val, t types.Type) (string, erro
 		}
 		return fmt.Sprintf("(div %s %s)", a, b), nil
 	case token.REM:
-		if _, lit := parseIntLit(b); !lit && !c.inLemma {
+		if _, lit := parseIntLit(b); !lit && !c.inLemma && c.opaqueNLDiv() {
 			c.nlDivDecls()
 			if signed {
 				return fmt.Sprintf("(nl_trem %s %s)", a, b), nil
